@@ -1,1 +1,9 @@
-# no known findings for C05 on the current tree
+# classifiers for C05 known findings
+
+
+def c05_parsejson_recursion_limit_128(op, impl, model, args):
+    """std.parseJson (serde_json with its default recursion limit) rejects a text nested deeper than
+    127 levels although the manifester emitted it and the independent reader (limit switched off)
+    reads it back as the same value; nothing else may be wrong with the case"""
+    return op.get("op") == "json.indep" and isinstance(op.get("depth"), int) and op["depth"] >= 128 \
+        and isinstance(impl, dict) and impl.get("serde") is True and impl.get("parse") is False
